@@ -22,6 +22,7 @@ import (
 	"runtime/debug"
 	"strings"
 	"sync"
+	"sync/atomic"
 	"time"
 
 	"github.com/beevik/etree"
@@ -126,6 +127,8 @@ type c09In struct {
 	Encx     *c09EncX `json:"encx,omitempty"`   // what an EncryptedAssertion holds
 	Bound    string   `json:"bound,omitempty"`  // what ends the wait for a stalled resolver: client | deadline | cancel | none
 	Client   string   `json:"client,omitempty"` // sp.HTTPClient: default (nil) | custom (no timeout) | timeout
+	Rdpt     string   `json:"rdpt,omitempty"`   // where a Read of the resolver's body fails / stalls: start | mid | end
+	Close    string   `json:"close,omitempty"`  // what Close of the resolver's body returns: ok | err
 }
 
 type c09Pred struct {
@@ -133,6 +136,8 @@ type c09Pred struct {
 	Step    string   `json:"step"`
 	Err     string   `json:"err"`
 	Fired   []string `json:"fired"` // dereference sites reached with their part absent, in order
+	Body    string   `json:"body"`  // the body of the back-channel answer at the return: none | closed
+	Clog    bool     `json:"clog"`  // a failure of its Close was written to the log
 }
 
 type c09Vec struct {
@@ -143,7 +148,16 @@ type c09Vec struct {
 }
 
 func c09CaseKey(v *c09Vec) string {
-	b, _ := json.Marshal(v.In)
+	// the default classes of the body's life are not part of the identity: the cases that were there
+	// before the dimension was added keep their keys (and the representatives drawn from them)
+	in := v.In
+	if in.Rdpt == "mid" {
+		in.Rdpt = ""
+	}
+	if in.Close == "ok" {
+		in.Close = ""
+	}
+	b, _ := json.Marshal(in)
 	return "C09:" + v.In.Fam + ":" + v.In.Entry + ":" + hashKey(string(b))
 }
 
@@ -906,6 +920,30 @@ type c09Obs struct {
 	GrowthMB float64  `json:"growth_mb,omitempty"`
 	Variant  string   `json:"variant,omitempty"`
 	Broken   string   `json:"broken,omitempty"` // the harness could not set the case up (never a verdict)
+	// the body of the back-channel answer (artifact entry): whether one was handed to the code, how often
+	// it was closed (-1: the body was net/http's own, not observable), whether it was read after that,
+	// whether the failure of its Close appeared in the library's log
+	BodyGiven      bool `json:"body_given,omitempty"`
+	BodyCloses     int  `json:"body_closes,omitempty"`
+	ReadAfterClose bool `json:"read_after_close,omitempty"`
+	CloseLogged    bool `json:"close_logged,omitempty"`
+}
+
+// bodyState is the state of the body at the return, in the model's terms ("" when it cannot be observed).
+func (o *c09Obs) bodyState() string {
+	switch {
+	case o.BodyCloses < 0:
+		return ""
+	case !o.BodyGiven:
+		return "none"
+	case o.BodyCloses == 0:
+		return "open"
+	case o.BodyCloses == 1 && !o.ReadAfterClose:
+		return "closed"
+	case o.BodyCloses > 1:
+		return fmt.Sprintf("closed %d times", o.BodyCloses)
+	}
+	return "read after Close"
 }
 
 // respResult applies the oracle of the response-parsing entry points.
@@ -1003,15 +1041,81 @@ func c09GuardPlain(o *c09Obs, timeout time.Duration, f func()) {
 // the consumers
 
 type c09Body struct {
-	data  []byte
-	chunk int
-	delay time.Duration
-	fail  int // fail after this many bytes (0: never)
-	pos   int
+	data      []byte
+	chunk     int
+	delay     time.Duration
+	fail      int  // fail after this many bytes (0: never; all of them: in place of the end of the stream)
+	failStart bool // fail before the first byte
+	pos       int
+	c09BodyLife
+}
+
+// c09BodyLife is what the harness can make of, and see of, the end of a body's life: Close returns
+// closeErr; the calls of Close and the Reads that came after one are counted.
+type c09BodyLife struct {
+	closeErr error
+	closes   atomic.Int32
+	late     atomic.Int32
+}
+
+func (l *c09BodyLife) Close() error {
+	l.closes.Add(1)
+	return l.closeErr
+}
+
+func (l *c09BodyLife) reading() {
+	if l.closes.Load() > 0 {
+		l.late.Add(1)
+	}
+}
+
+// observe copies what was seen of the body into the observation.
+func (l *c09BodyLife) observe(o *c09Obs, token string) {
+	o.BodyGiven = true
+	o.BodyCloses = int(l.closes.Load())
+	o.ReadAfterClose = l.late.Load() > 0
+	o.CloseLogged = c09Logs.count(token) > 0
+}
+
+// c09CloseErr is the failure of Close of one execution; the token makes its line in the log attributable.
+func c09CloseErr(in *c09In, token string) error {
+	if in.Close != "err" {
+		return nil
+	}
+	return fmt.Errorf("c09close[%s]: read tcp 192.0.2.7:51034->203.0.113.9:443: connection reset by peer", token)
+}
+
+// c09LogSink stands in for the library's default logger while C09 runs: it keeps count of the close
+// failures (by token) that were logged and drops everything else.
+type c09LogSink struct {
+	mu   sync.Mutex
+	seen map[string]int
+}
+
+var c09Logs = &c09LogSink{seen: map[string]int{}}
+
+var reCloseToken = regexp.MustCompile(`c09close\[([0-9a-zA-Z_:/.-]+)\]`)
+
+func (s *c09LogSink) Write(p []byte) (int, error) {
+	if ms := reCloseToken.FindAllSubmatch(p, -1); ms != nil {
+		s.mu.Lock()
+		for _, m := range ms {
+			s.seen[string(m[1])]++
+		}
+		s.mu.Unlock()
+	}
+	return len(p), nil
+}
+
+func (s *c09LogSink) count(token string) int {
+	s.mu.Lock()
+	defer s.mu.Unlock()
+	return s.seen[token]
 }
 
 func (b *c09Body) Read(p []byte) (int, error) {
-	if b.fail > 0 && b.pos >= b.fail {
+	b.reading()
+	if b.failStart || (b.fail > 0 && b.pos >= b.fail) {
 		return 0, io.ErrUnexpectedEOF
 	}
 	if b.pos >= len(b.data) {
@@ -1034,7 +1138,6 @@ func (b *c09Body) Read(p []byte) (int, error) {
 	b.pos += n
 	return n, nil
 }
-func (b *c09Body) Close() error { return nil }
 
 func c09FormRequest(method, target string, form url.Values) *http.Request {
 	var r *http.Request
@@ -1177,6 +1280,13 @@ func (c *c09Ctx) runResp(v *c09Vec, rng *rand.Rand) []c09Obs {
 		for _, x := range c09Frame(v, nil, false, rng) {
 			o := c09Obs{Variant: x.name}
 			x := x
+			token := hashKey(c09CaseKey(v) + "/" + x.name)
+			var served atomic.Pointer[c09Body]
+			serve := func(b *c09Body) *c09Body {
+				b.closeErr = c09CloseErr(in, token)
+				served.Store(b)
+				return b
+			}
 			s.HTTPClient = &http.Client{Transport: rtFunc(func(r *http.Request) (*http.Response, error) {
 				req, _ := io.ReadAll(r.Body)
 				o.Calls = append(o.Calls, r.Method+" "+r.URL.String())
@@ -1193,21 +1303,28 @@ func (c *c09Ctx) runResp(v *c09Vec, rng *rand.Rand) []c09Obs {
 					codes := []int{500, 404, 403, 302, 204, 503}
 					resp.StatusCode = codes[rng.Intn(len(codes))]
 					resp.Status = fmt.Sprintf("%d %s", resp.StatusCode, http.StatusText(resp.StatusCode))
-					resp.Body = &c09Body{data: []byte("<html><body>it did not work</body></html>")}
+					resp.Body = serve(&c09Body{data: []byte("<html><body>it did not work</body></html>")})
 				case "empty":
-					resp.Body = &c09Body{}
+					resp.Body = serve(&c09Body{})
 				case "truncated":
-					resp.Body = &c09Body{data: body[:len(body)/2]}
+					resp.Body = serve(&c09Body{data: body[:len(body)/2]})
 				case "readerr":
-					resp.Body = &c09Body{data: body, fail: len(body) / 2}
+					switch in.Rdpt {
+					case "start":
+						resp.Body = serve(&c09Body{data: body, failStart: true})
+					case "end": // every byte of a complete valid body, then an error in place of the end of the stream
+						resp.Body = serve(&c09Body{data: body, fail: len(body)})
+					default:
+						resp.Body = serve(&c09Body{data: body, fail: len(body) / 2})
+					}
 				case "garbage":
 					g := make([]byte, 300)
 					rng.Read(g)
-					resp.Body = &c09Body{data: append([]byte("<html><body>Service Unavailable<br>"), g...)}
+					resp.Body = serve(&c09Body{data: append([]byte("<html><body>Service Unavailable<br>"), g...)})
 				case "slow":
-					resp.Body = &c09Body{data: body, chunk: len(body)/20 + 1, delay: 15 * time.Millisecond}
+					resp.Body = serve(&c09Body{data: body, chunk: len(body)/20 + 1, delay: 15 * time.Millisecond})
 				default:
-					resp.Body = &c09Body{data: body}
+					resp.Body = serve(&c09Body{data: body})
 				}
 				return resp, nil
 			})}
@@ -1216,6 +1333,9 @@ func (c *c09Ctx) runResp(v *c09Vec, rng *rand.Rand) []c09Obs {
 				r.ParseForm()
 				o.respResult(s.ParseResponse(r, ids))
 			})
+			if b := served.Load(); b != nil && !o.Hang {
+				b.observe(&o, token)
+			}
 			out = append(out, o)
 		}
 	}
